@@ -510,8 +510,9 @@ func c19CheckFlavWorld(c *lib.Ctx, w *c19FlavWorld, margins []int, all bool) (re
 		form := fo.Value
 		formText := strings.ReplaceAll(c19Show(form), prefix, "")
 		// model agreement (recorded once per world)
+		abstract, _ := f.Simplify().(map[string]any)["abstract"].(bool)
 		if m, has := model[d.Name]; has && res.broken == "" {
-			if got := showStates(want); got != m["E"] {
+			if got := showStates(want); got != m["E"] && !abstract { // an abstract flavor has no instances
 				res.broken = fmt.Sprintf("effective defaults of %s: implementation %s, model %s", d.Name, got, m["E"])
 			} else if got := strings.Join(wantInh, " "); got != m["I"] {
 				res.broken = fmt.Sprintf("inherit list of %s: implementation %s, model %s", d.Name, got, m["I"])
